@@ -739,12 +739,15 @@ package fzf
 // ^t -> prefix, t$ -> suffix, ^t$ -> equal.
 //@ spec func plainTerm(ts []term, k int, fz bool) bool = k == 0 && !ts[k].inv && ts[k].typ == (fz ? termFuzzy : termExact)
 //@ func BuildPattern
-//@ property C01 C04
+//@ property C01 C04 C05
 //@ requires patternCache != nil
 //@ modifies map(patternCache)
 //@ ensures fresh(result) ==> result.fuzzy == fuzzy && result.fuzzyAlgo == fuzzyAlgo && result.extended == extended && result.forward == forward && result.withPos == withPos && result.denylist == denylist && result.nth == nth
 //@ ensures fresh(result) ==> result.procFun != nil && mapget(result.procFun, termFuzzy) == fuzzyAlgo && mapget(result.procFun, termEqual) == algo.EqualMatch && mapget(result.procFun, termExact) == algo.ExactMatchNaive && mapget(result.procFun, termExactBoundary) == algo.ExactMatchBoundary && mapget(result.procFun, termPrefix) == algo.PrefixMatch && mapget(result.procFun, termSuffix) == algo.SuffixMatch
 //@ ensures fresh(result) && !extended ==> result.normalize ==> normalize
+// (the pattern cache is read with the very key it is written with - the query text, case included: under smart-case
+//  `Abc` and `abc` are different patterns)
+//@ assert @"if found {" found == maphas(patternCache, asString) && (found ==> cached == mapget(patternCache, asString))
 //@ ensures fresh(result) && !extended ==> len(result.text) == len(runes) -- without extended syntax the query is taken as typed, leading and trailing blanks included
 // (extended mode) the search scope of a query may be narrowed from cached results of another query only if every term is
 // a plain one of the mode's default kind - no OR, no negation, no ^ $ ' forms, whose matches are not a subset of the
